@@ -144,7 +144,11 @@ impl TransactionManager {
     /// Begins a new transaction with the specified isolation level.
     pub fn begin_with_isolation(&self, isolation_level: IsolationLevel) -> TxId {
         let tx_id = TxId::new(self.next_tx_id.fetch_add(1, Ordering::Relaxed));
+        #[cfg(grafeo_verif)]
+        grafeo_common::verif::yield_point("tm.begin.after_alloc");
         let epoch = EpochId::new(self.current_epoch.load(Ordering::Acquire));
+        #[cfg(grafeo_verif)]
+        grafeo_common::verif::yield_point("tm.begin.after_epoch");
 
         let info = TxInfo::new(epoch, isolation_level);
         self.transactions.write().insert(tx_id, info);
